@@ -733,3 +733,7 @@ def run(ctx):
     rule_f(ctx)
     rule_g(ctx)
     rule_h(ctx)
+    # obligations shared with a sibling property (evaluated by the owning module, reported here under letter x)
+    from engine.rulelib import share as _share
+    _share(ctx, 'C13', 'rule_d', 'x', 'the recorded peer max_udp_payload_size bounds the MTU on every reset: Datagrams::max_size() is derived from it')
+
